@@ -22,9 +22,65 @@ var manyLocalsLoops = []string{
 }
 var manyLocalsCounts = []int{1, 7, 8, 9, 10, 16, 40}
 
-func manyLocalsN() int64 { return int64(len(manyLocalsLoops) * len(manyLocalsCounts) * 3) }
+func manyLocalsN() int64 {
+	return int64(len(manyLocalsLoops)*len(manyLocalsCounts)*3) + lateOuterN()
+}
+
+// late-outer: a block that has created 1..40 variables, then an assignment
+// (plain / compound) from a nested block of every kind to an early, the 8th,
+// the 9th or the last of them, then a read of all of them after the nested
+// block has ended: the assignment must have updated the enclosing variable.
+var lateOuterForms = []string{
+	"if true {\nASSIGN}\n",
+	"if false {} elif true {\nASSIGN}\n",
+	"if false {} else {\nASSIGN}\n",
+	"for i = 0; i < 2; i = i + 1 {\nASSIGN}\n",
+	"for i = 0; i < 2; TARGET = TARGET + 1 {\n  i = i + 1\n}\n",
+	"for e in [1, 2] {\nASSIGN}\n",
+	"if true {\n  for e in [1] {\n    if true {\nASSIGN    }\n  }\n}\n",
+}
+var lateOuterAssigns = []string{"  TARGET = 100\n", "  TARGET += 100\n"}
+
+func lateOuterN() int64 {
+	return int64(len(lateOuterForms) * len(lateOuterAssigns) * len(manyLocalsCounts) * 4)
+}
+
+func lateOuterProgram(i int64) []*gt.T {
+	tsel := int(i % 4)
+	i /= 4
+	cnt := manyLocalsCounts[int(i)%len(manyLocalsCounts)]
+	i /= int64(len(manyLocalsCounts))
+	as := lateOuterAssigns[int(i)%len(lateOuterAssigns)]
+	form := lateOuterForms[int(i)/len(lateOuterAssigns)]
+	t := []int{0, 7, 8, cnt - 1}[tsel]
+	if t >= cnt {
+		t = cnt - 1
+	}
+	var sb strings.Builder
+	names := []string{}
+	for k := 0; k < cnt; k++ {
+		fmt.Fprintf(&sb, "v%d = %d\n", k, k)
+		names = append(names, fmt.Sprintf("v%d", k))
+	}
+	target := fmt.Sprintf("v%d", t)
+	sb.WriteString(strings.ReplaceAll(strings.ReplaceAll(form, "ASSIGN", as), "TARGET", target))
+	fmt.Fprintf(&sb, "p(%s)\n", strings.Join(names, ", "))
+	fmt.Fprintf(&sb, "%s = %s + 1\np(\"end\", %s)\n", target, target, target)
+	o := drive.Parse("late-outer", sb.String())
+	if o.Err != nil {
+		panic("late-outer program does not parse: " + sb.String() + ": " + o.Err.Error())
+	}
+	l, err := gt.FromStmts(o.Stmts)
+	if err != nil {
+		panic(err)
+	}
+	return gt.CloneStmts(l)
+}
 
 func manyLocalsProgram(i int64) []*gt.T {
+	if n := int64(len(manyLocalsLoops) * len(manyLocalsCounts) * 3); i >= n {
+		return lateOuterProgram(i - n)
+	}
 	iters := int(i%3) + 1
 	i /= 3
 	cnt := manyLocalsCounts[int(i)%len(manyLocalsCounts)]
